@@ -162,9 +162,16 @@ func (s *Session) getPacketFromMsg(topic string, payload []byte, qos byte) *pack
 	p.Qos = qos
 	p.TopicName = topic
 	p.Payload = payload
+	// the overflow of nextID is okay: ids go from 0 to 65535 again and again. But the id of a QoS1
+	// message that is still waiting for its PUBACK must not be handed out a second time: the new
+	// message would replace it in s.pending and the old one would never be resent.
+	for n := 0; n < 1<<16; n++ {
+		if _, inUse := s.pending[s.nextID]; !inUse {
+			break
+		}
+		s.nextID++
+	}
 	p.MessageID = s.nextID
-	// the overflow is okay here
-	// the session will give unique id from 0 to 65535 and do this again and again
 	s.nextID++
 	return p
 }
